@@ -117,6 +117,7 @@ func (d *DBFT[H]) initializeConsensus(view byte, ts uint64) {
 
 	// Process cached messages if any.
 	if msgs := d.cache.getHeight(d.BlockIndex); msgs != nil {
+		d.verifReplay(msgs)
 		for _, m := range msgs.prepare {
 			d.OnReceive(m)
 		}
